@@ -46,8 +46,11 @@ func ticks(ttl int64) (short1, short2, long int64) {
 // ---- A: exhaustive small scopes
 //
 // A1: one client, two nodes, one connection per node (reconnect to the other node, late cleanup,
-//     heartbeats, expiry): every word of length <= L over {h,b,c} x {conn0, conn1} + {short, long tick}.
+//
+//	heartbeats, expiry): every word of length <= L over {h,b,c} x {conn0, conn1} + {short, long tick}.
+//
 // A2: one client, two connections on node 0 and one on node 1 (same-node kick + cross-node reconnect).
+// A3: one client registered on node 0: heartbeats / reconnect / late close / ticks of 0.45 and 0.7 lifetimes, up to 5 steps in the thorough tier.
 func genExhaustive(tier string, emit func(string)) {
 	lenTick, lenNoTick, lenA2 := 3, 3, 3
 	if tier == "thorough" {
@@ -66,6 +69,16 @@ func genExhaustive(tier string, emit func(string)) {
 			emit(header(be, 1000, 2, []int{7}) + " o:0.7.0 o:1.7.0 " + strings.Join(w, " "))
 		})
 	}
+	// A3: keep-alive: the client is registered on node 0; heartbeats of both connections, a reconnect, the late
+	// cleanup and two tick sizes (0.45 and 0.7 lifetimes: 9a + 14b = 20 has no solution either)
+	a3 := []string{"b:0.7.0", "b:1.7.0", "h:1.7.0", "c:0.7.0", "t:450", "t:700"}
+	lenA3 := 3
+	if tier == "thorough" {
+		lenA3 = 5
+	}
+	words(a3, lenA3, func(w []string) {
+		emit(header("red", 1000, 2, []int{7}) + " o:0.7.0 o:1.7.0 h:0.7.0 " + strings.Join(w, " "))
+	})
 	a2 := []string{"h:0.7.0", "h:0.7.1", "h:1.7.0", "c:0.7.0", "c:0.7.1", "c:1.7.0", "b:0.7.0"}
 	for _, be := range []string{"red", "mem"} {
 		words(a2, lenA2, func(w []string) {
@@ -208,12 +221,12 @@ func genTimed(r *common.Rand, backends []string, perBackend int, emit func(strin
 func genBoundary(emit func(string)) {
 	for _, be := range []string{"mem", "red", "hyr", "hyl", "map", "byt"} {
 		h := func(nn int, cl ...int) string { return header(be, 1000, nn, cl) }
-		emit(h(2, 7) + " h:0.7.0 b:0.7.0 c:0.7.0")                                       // nothing was ever opened
-		emit(h(2, 7, 0) + " o:0.0.0 h:0.0.0 b:0.0.0 c:0.0.0")                            // anonymous client id 0
-		emit(h(2, 7) + " o:0.7.0 f:0.7.0 b:0.7.0 u:0.7.0 b:0.7.0 v:0.7.0 c:0.7.0")       // never a successful control handshake
-		emit(h(2, 7) + " o:0.7.0 h:0.7.0 h:0.7.0 f:0.7.0 u:0.7.0 c:0.7.0 c:0.7.0")       // repeated handshakes, double close
-		emit(h(2, 7) + " o:0.7.0 h:0.7.0 c:0.7.0 o:0.7.0 h:0.7.0 b:0.7.0")               // id reuse after close
-		emit(h(1, 7) + " o:0.7.0 h:0.7.0 o:0.7.1 h:0.7.1 c:0.7.0 b:0.7.1 c:0.7.1")       // single node
+		emit(h(2, 7) + " h:0.7.0 b:0.7.0 c:0.7.0")                                 // nothing was ever opened
+		emit(h(2, 7, 0) + " o:0.0.0 h:0.0.0 b:0.0.0 c:0.0.0")                      // anonymous client id 0
+		emit(h(2, 7) + " o:0.7.0 f:0.7.0 b:0.7.0 u:0.7.0 b:0.7.0 v:0.7.0 c:0.7.0") // never a successful control handshake
+		emit(h(2, 7) + " o:0.7.0 h:0.7.0 h:0.7.0 f:0.7.0 u:0.7.0 c:0.7.0 c:0.7.0") // repeated handshakes, double close
+		emit(h(2, 7) + " o:0.7.0 h:0.7.0 c:0.7.0 o:0.7.0 h:0.7.0 b:0.7.0")         // id reuse after close
+		emit(h(1, 7) + " o:0.7.0 h:0.7.0 o:0.7.1 h:0.7.1 c:0.7.0 b:0.7.1 c:0.7.1") // single node
 		emit(h(3, 7, 9) + " o:0.7.0 h:0.7.0 o:1.9.0 h:1.9.0 o:2.7.0 h:2.7.0 o:0.9.0 h:0.9.0 c:0.7.0 c:1.9.0 c:2.7.0 c:0.9.0")
 		emit(header(be, 0, 2, []int{7}) + " o:0.7.0 h:0.7.0 o:1.7.0 h:1.7.0 c:0.7.0 b:1.7.0") // default lifetime
 	}
@@ -238,4 +251,5 @@ func generate(r *common.Rand, tier string, emit func(string)) {
 		genRandom(r.Fork(), []string{"mem", "hyl", "map", "byt"}[i%4], false, emit)
 	}
 	genTimed(r, []string{"mem", "hyl", "map", "byt"}, nTimed, emit)
+	genSched(tier, emit)
 }
